@@ -155,14 +155,27 @@ func vpH_C05_iter() {
 		}
 	}
 	docs := vpIterDocs(n, present, withLocs)
-	mode := []uint32{1025, 2, 1, 3}[vpChoice("mode", 4)]
+	modes := []uint32{1025, 2, 1, 3}
+	if vpThorough() {
+		modes = []uint32{1025, 2, 1}
+	}
+	mode := modes[vpChoice("mode", len(modes))]
 	seg := vpBuild(docs, mode)
 	exp := vpBuildExpect(docs, nil)
-	// exclusion: nil or any subset of the universe
+	// exclusion: nil or any subset of the universe (thorough, 5 documents: subsets of size <= 2 and the full set)
 	var except *roaring.Bitmap
 	live := append([]bool(nil), present...)
 	if vpChoice("has-except", 2) == 1 {
 		ex := vpSubset("except", n, false)
+		if vpThorough() {
+			cnt := 0
+			for _, e := range ex {
+				if e {
+					cnt++
+				}
+			}
+			vpAssume(cnt <= 2 || cnt == n)
+		}
 		except = roaring.New()
 		for i, e := range ex {
 			if e {
